@@ -29,10 +29,10 @@ func LoadCorpus(suffix string) ([]CorpusFile, error) {
 		return nil, err
 	}
 	var idx map[string]struct {
-		Plain  string `json:"plain"`
-		Sha    string `json:"sha256"`
-		Len    int    `json:"len"`
-		SSha   string `json:"stream_sha256"`
+		Plain string `json:"plain"`
+		Sha   string `json:"sha256"`
+		Len   int    `json:"len"`
+		SSha  string `json:"stream_sha256"`
 	}
 	if err := json.Unmarshal(b, &idx); err != nil {
 		return nil, err
